@@ -211,11 +211,13 @@ def handler_cases(chk: Check, scratch: Scratch, count: int) -> None:
     rng = chk.subrng("handler")
     root, sdir = scratch.sub("root"), scratch.sub("hpy")
     replay: list = []
-    for setting, expect in (("false", False), ("true", True)):
+    # every spelling the configuration parser accepts for a boolean
+    for setting, expect in (("false", False), ("off", False), ("0", False), ("no", False), ("OFF", False), ("False", False), ("No", False),
+                            ("true", True), ("on", True), ("1", True), ("yes", True)):
         site = driver.Site(root, handlers=HANDLERS,
                            overrides={("handlers.tal.TALFileHandler", "allowpythonpath"): setting})
         try:
-            for n in range(count if not expect else max(4, count // 3)):
+            for n in range(max(6, count // 3) if not expect else max(3, count // 8)):
                 while True:
                     tpl, pos, effect, target = python_template(rng, n, sdir)
                     if effect != "list":        # the handler's context has no harness list
@@ -356,6 +358,44 @@ def restore_case(chk: Check, i: int) -> None:
     chk.case(("restore", cmds, feats), {"sub": "restore", "page": page[:300]} if i < 2 else None)
 
 
+def restore_directed(chk: Check) -> None:
+    """Directed family for (d): an element that both defines a local and takes its content (or replacement) from a
+    *template object* found in the context (`structure` of a compiled template runs that template in place)."""
+    subs = {"plain": '<b tal:content="uloc">u</b>', "defines": '<b tal:define="inner string:i" tal:content="inner">u</b>',
+            "repeats": '<b tal:repeat="k seq" tal:content="k">u</b>', "empty": ""}
+    shapes = ['<h1 tal:define="title string:T" tal:content="structure sub">h</h1><p tal:content="title | string:unset">p</p>',
+              '<h1 tal:define="title string:T" tal:replace="structure sub">h</h1><p tal:content="title | string:unset">p</p>',
+              '<ul><li tal:repeat="x seq" tal:define="t x" tal:content="structure sub">l</li></ul><p tal:content="t | string:unset">p</p>',
+              '<div tal:define="a string:A"><h1 tal:define="b string:B" tal:content="structure sub">h</h1><i tal:content="b | string:unset">i</i>'
+              '<i tal:content="a">a</i></div><p tal:content="a | string:unset">p</p>',
+              '<h1 tal:define="t string:T" tal:condition="nothing" tal:content="structure sub">h</h1><p tal:content="t | string:unset">p</p>',
+              '<h1 tal:define="t string:T" tal:content="structure sub" tal:omit-tag="">h</h1><p tal:content="t | string:unset">p</p>']
+    for sname, sub in subs.items():
+        for k, shape in enumerate(shapes):
+            page = "<html><body>%s</body></html>" % shape
+            simpleTALES.PATHNOTFOUNDEXCEPTION.__traceback__ = None
+            ctx = new_context({"seq": ["s1", "s2", "s3"]})
+            ctx.setLocal("uloc", "user local")
+            detail = {"sub": "restore-directed", "case_seed": chk.seed, "page": page, "included_template": sub}
+            try:
+                ctx.addGlobal("sub", simpleTAL.compileHTMLTemplate(sub))
+                before = snapshot(ctx)
+                out = io.StringIO()
+                simpleTAL.compileHTMLTemplate(page).expand(ctx, out)
+            except Exception as e:
+                report_exception(chk, e, detail)
+                continue
+            after = snapshot(ctx)
+            chk.count("directed_restore_cases")
+            diffs = {k2: {"before": before[k2], "after": after[k2]} for k2 in before if before[k2] != after[k2]}
+            text = out.getvalue()
+            if diffs:
+                chk.witness("C18/context-not-restored", dict(detail, differences={k2: str(v)[:200] for k2, v in diffs.items()}))
+            elif "unset" not in text:
+                chk.witness("C18/local-define-visible-after-its-element", dict(detail, output=text[:300]))
+            chk.case(("restore-directed", sname, k), detail if k == 0 and sname == "plain" else None)
+
+
 RULE = ("distinct per sub-check: (a) (commands used, output has elements); (b) (position of the python: "
         "expression, kind of side effect, gate on/off, direct|handler); (c) (document-grammar constructs "
         "used, size bucket); (d) (commands used, {empty/missing repeat, global define, iterator, macro, "
@@ -408,6 +448,8 @@ def main() -> int:
         passthrough_case(chk, i)
     for i in range(n_restore):
         restore_case(chk, i)
+    if chk.args.shard in (None, 0):
+        restore_directed(chk)
     c = chk.counters
     for name, floor in (("canary_outputs_parsed", 1), ("canary_payload_occurrences_in_output_text", 1),
                         ("python_blocked_when_disabled", 1), ("python_evaluated_when_enabled", n_py // 2),
